@@ -293,8 +293,10 @@ def run(tier):
     if not hists:
         raise C.Machinery('no histories dumped')
     rnd = C.rng('c14')
-    if tier == 'quick' and len(hists) > 1500:
-        hists = rnd.sample(hists, 1500)
+    chk.cov['histories_enumerated_by_tlc'] = len(hists)
+    cap = 1500 if tier == 'quick' else 20000
+    if len(hists) > cap:
+        hists = rnd.sample(hists, cap)
     archs = sorted(M.ARCHETYPES)
     jobs = [(a, h_) for h_ in hists for a in archs]
     traces = []
